@@ -88,12 +88,18 @@ def _render(report, fmt):
     return buf.getvalue()
 
 
+_NEG = re.compile(r"\b(no|not|never|none|without)\b|n't\b|\bunnecessary\b", re.I)
+
+
 def parse_summary(text, fmt):
-    """-> (ev, h, u, verdict_bool) parsed from the rendered summary; raises ValueError if not parseable."""
+    """-> (ev, h, u, verdict_bool | None) parsed from the rendered summary; raises ValueError if the three percentages are
+    not there. The verdict sentence is recognised by the word 'necessary' (else 'refactor'), in any wording and case; a
+    negation word makes it a 'not necessary' verdict. None when no such sentence can be recognised."""
     lines = [ln for ln in text.splitlines() if ln.strip()]
+    is_verdict = lambda ln: re.search(r"necessary", ln, re.I) is not None  # noqa: E731
     row = None
     for ln in lines:
-        if "necessary" in ln:
+        if is_verdict(ln):
             continue
         nums = _PCT.findall(ln)
         if len(nums) == 3:
@@ -101,11 +107,14 @@ def parse_summary(text, fmt):
             break
     if row is None:
         raise ValueError("no row with three percentages")
-    verdict_lines = [ln for ln in lines if "necessary" in ln]
+    verdict_lines = [ln for ln in lines if is_verdict(ln)]
+    if not verdict_lines:
+        verdict_lines = [ln for ln in lines if re.search(r"refactor", ln, re.I) and len(_PCT.findall(ln)) != 3]
     if len(verdict_lines) != 1:
-        raise ValueError("expected exactly one verdict line")
-    v = verdict_lines[0]
-    verdict = "no refactoring necessary" not in v
+        if len(verdict_lines) > 1:
+            raise ValueError("more than one verdict line")
+        return row[0], row[1], row[2], None
+    verdict = _NEG.search(verdict_lines[0]) is None
     return row[0], row[1], row[2], verdict
 
 
@@ -144,7 +153,7 @@ def check_profile(profile, render: bool, via="inject", lengths=None, files=None,
             if bad:
                 return (f"{fmt}:" + bad[0], bad[1] + f"\n{r[1]}")
             expected = su > 0 or sh > 20
-            if verdict != expected:
+            if verdict is not None and verdict != expected:
                 return (
                     f"verdict:{fmt}",
                     f"profile {profile}: shown ev={sev} h={sh} u={su}, 'refactoring necessary' printed={verdict}, "
